@@ -73,7 +73,13 @@ def guard(f):
 
 def run_impl(case):
     from trie.smt import SparseMerkleTree, calc_root
-    t = SparseMerkleTree(key_size=case["ks"], default=case["default"])
+    # the documented defaults (key_size=32, default=b"") are exercised by omitting the arguments whenever they equal them
+    kw = {}
+    if case["ks"] != 32:
+        kw["key_size"] = case["ks"]
+    if case["default"] != b"":
+        kw["default"] = case["default"]
+    t = SparseMerkleTree(**kw)
     outs = [bytes(t.root_hash)]
     aux = []
     for op in case["ops"]:
@@ -91,10 +97,9 @@ def run_impl(case):
         elif k == "calcroot":
             outs.append(guard(lambda: bytes(calc_root(op[1], t.get(op[1]), t.branch(op[1])))))
         elif k == "fromdb":
-            outs.append(guard(lambda: bytes(SparseMerkleTree.from_db(t.db, t.root_hash, key_size=case["ks"],
-                                                                    default=case["default"]).get(op[1]))))
+            outs.append(guard(lambda: bytes(SparseMerkleTree.from_db(t.db, t.root_hash, **kw).get(op[1]))))
         elif k == "reopen":
-            t = SparseMerkleTree.from_db(t.db, t.root_hash, key_size=case["ks"], default=case["default"])
+            t = SparseMerkleTree.from_db(t.db, t.root_hash, **kw)
             outs.append(None)
         else:
             outs.append(bytes(t.root_hash))
